@@ -198,7 +198,7 @@ def make_emulable(ch, max_reg=5, max_macros=3, with_env=True, general_numbers=Fa
     prog["body"] = b.sections(0, 4, True)
     env = {}
     if with_env and ch.bool():
-        env = overrides(ch, prog, cfg.natives)
+        env = overrides(ch, prog, cfg.natives, wide=False)
     ndel = None
     for _ in range(3):
         a = repair(prog, {})
@@ -267,4 +267,24 @@ def make_pm(ch, n_qubits=2, zero_loops=True):
         prog["macros"].append({"name": mn, "params": [], "body": ["seq", body]})
         macros.append((mn, has_sub))
     prog["body"] = items(3, False, False, True, macros)
+    if ch.int(0, 4) == 0:
+        # template aimed at the loop rule: a subcircuit opened before / inside a loop and closed inside it
+        g = lambda: ["g", "X", [["ix", "q", ch.int(0, n_qubits - 1)]]]
+        inner = []
+        if ch.bool():
+            inner += [["g", "prepare_all", []], g()]
+        inner += [g()] * ch.int(0, 1) + [["g", "measure_all", []]]
+        if ch.bool():
+            inner += [["g", "prepare_all", []], g()]
+            if ch.bool():
+                inner += [["g", "measure_all", []]]
+        loop = ["loop", ch.pick(counts), ["seq", inner]]
+        if ch.bool():
+            loop = ["loop", ch.pick(counts), ["seq", [loop]]]
+        pre = [["g", "prepare_all", []], g()] if ch.int(0, 3) > 0 else []
+        post = [["g", "measure_all", []]] if ch.bool() else []
+        wrapped = pre + [loop] + post
+        if ch.int(0, 3) == 0:
+            wrapped = [["seq", wrapped]]
+        prog["body"] = wrapped + (prog["body"] if ch.bool() else [])
     return {"prog": prog, "env": {}, "gate_seed": 0}
